@@ -16,6 +16,7 @@ What is validated rather than proved: that every byte stream the implementation 
 tokenizer (checked on every run for draw histories and the all-code-points sweep).
 -/
 import Tcell.Lemmas.DrawDefs
+import Tcell.Props.C08
 import Tcell.Base.Utf8
 import Tcell.Gen.RuneWidth
 import Tcell.Gen.TerminfoDB
@@ -166,6 +167,40 @@ theorem payload_clean_comb (r : Int) (comb : List Int)
 
 example : obsMain rwTable 0x1b = 32 ∧ obsMain rwTable 0x9b = 32 ∧ obsMain rwTable 0x202e = 32 ∧ obsMain rwTable (-5) = 32 ∧
     obsMain rwTable 0x41 = 0x41 ∧ obsMain rwTable 0x4e16 = 0x4e16 := by decide +kernel
+
+/-! ### cells written by Fill
+
+`payload_clean` is about `obsMain`, the substitution GetContent performs on a cell whose stored width is that of its rune
+(cells written by SetContent, `Tcell.Props.C08.get_set`).  Fill chooses the width itself (cell.go:244). -/
+
+/-- **Pinned tree: Fill lets a C1 control through.**  After `Fill(0x9B, StyleDefault)` on a 1×1 buffer GetContent hands
+the draw path U+009B itself (width 1) although the width table says "zero width", and its UTF-8 encoding C2 9B is the
+C1 control CSI (in an ISO 8859 locale: the single byte 9B).  Finding `C09-fill-control`; same for DEL, every C1
+control and every zero-width / format / invalid rune at or above ' ' (`Tcell.Props.C08.get_fill_pinned`). -/
+theorem fill_c1_not_blank :
+    ((Buf.empty.resize 1 1).fill 0x9b {}).getContent 0 0 = (0x9b, [], {}, 1) ∧ rwTable 0x9b = 0 ∧
+    Utf8.encode 0x9b = [0xc2, 0x9b] := by decide +kernel
+
+/-- **Repaired tree (fixes/C09-fill-zero-width.patch): no rune supplied through Fill can inject a control.**  For every
+buffer, every in-range cell and EVERY rune value `r`, the rune GetContent hands to the draw path after `Fill(r, s)` is
+`obsMain rwTable r` — the same substitution as after SetContent — hence a blank whenever `r` is zero-width or a C0
+control, never a C0 control, DEL or a C1 scalar, and its UTF-8 bytes contain no byte below 0x20 and no 0x7F. -/
+theorem payload_clean_fill (b : Buf) (r : Int) (s : Style) (x y : Int) (hr : b.inRange x y) :
+    let m := ((b.fillV true rwTable r s).getContent x y).1
+    m = obsMain rwTable r ∧ ((rwTable r = 0 ∨ r < 32) → m = 32) ∧ 32 ≤ m ∧ ¬ (127 ≤ m ∧ m ≤ 159) ∧
+    (∀ b ∈ Utf8.encode m, 32 ≤ b ∧ b ≠ 127 ∧ b < 256) := by
+  intro m
+  have hm : m = obsMain rwTable r := by
+    show ((b.fillV true rwTable r s).getContent x y).1 = obsMain rwTable r
+    rw [Tcell.Props.C08.get_fill_repaired rwTable b r s x y hr]; rfl
+  rw [hm]
+  exact ⟨rfl, payload_clean r⟩
+
+/-- the repaired Fill on the concrete instance of `fill_c1_not_blank`, and on DEL, ZWSP, RLO, a surrogate and an
+out-of-range value: blanks -/
+example : ([0x9b, 0x7f, 0x200b, 0x202e, 0xd800, 0x110000, -1] : List Int).all (fun r =>
+    ((Buf.empty.resize 1 1).fillV true rwTable r {}).getContent 0 0 = (32, [], {}, 1)) = true := by decide +kernel
+example : ((Buf.empty.resize 1 1).fillV true rwTable 0x41 {}).getContent 0 0 = (0x41, [], {}, 1) := by decide +kernel
 
 /-! ### capability strings and the strict tokenizer -/
 
